@@ -1,15 +1,15 @@
 package verifharness
 
 import (
-	"net/http/httptrace"
-	"net/textproto"
-	neturl "net/url"
 	"context"
 	"errors"
 	"fmt"
 	"io"
 	"net/http"
 	"net/http/httptest"
+	"net/http/httptrace"
+	"net/textproto"
+	neturl "net/url"
 	"strings"
 	"sync"
 
